@@ -1530,3 +1530,4 @@ func init() {
 		},
 	})
 }
+
